@@ -370,6 +370,19 @@ func (e *TypeEnv) Decls() string {
 
 func (e *TypeEnv) LitDecls() string {
 	var b strings.Builder
+	// literals that extend other literals: register the remainders first (bounded: only one round)
+	type split struct{ whole, pre, rest string }
+	var splits []split
+	base := append([]string{}, e.litOrd...)
+	for _, w := range base {
+		for _, p := range base {
+			if p != w && p != "" && strings.HasPrefix(w, p) {
+				rest := w[len(p):]
+				e.Lit(rest)
+				splits = append(splits, split{w, p, rest})
+			}
+		}
+	}
 	// string literals: distinct constants with known lengths
 	for _, s := range e.litOrd {
 		sym := e.lits[s]
@@ -382,6 +395,9 @@ func (e *TypeEnv) LitDecls() string {
 			b.WriteString(" " + e.lits[s])
 		}
 		b.WriteString("))\n")
+	}
+	for _, sp := range splits {
+		fmt.Fprintf(&b, "(assert (= %s (scat %s %s))) ; %q = %q + %q\n", e.lits[sp.whole], e.lits[sp.pre], e.lits[sp.rest], sp.whole, sp.pre, sp.rest)
 	}
 	return b.String()
 }
